@@ -63,7 +63,7 @@ def isomers(skel):
 
 def gen_cases(ctx):
     rng = ctx.rng
-    n = ctx.n(2400, 90000)
+    n = ctx.n(7200, 90000)
     kinds = ["renumber", "respell", "both"]
     for i in range(n):
         fam = i % 8
